@@ -97,3 +97,25 @@ fn c01_visit_wscale_without_value() {
     let r = run(&buf);
     assert!(r.is_ok());
 }
+
+/// the window is classified with "timestamp present" exactly when the option layout lists ts,
+/// also for a short / truncated timestamp option (8-byte option area: mss 1460, ts with length 4)
+#[kani::proof]
+#[kani::unwind(12)]
+#[kani::stub(crate::uptime::get_unix_time_ms, stub_now)]
+#[kani::stub(alloc::fmt::format, stub_format)]
+fn c03_opts_short_ts_window() {
+    let mut buf = [0u8; 28];
+    buf[12] = 7 << 4;
+    buf[13] = 0x02;
+    buf[4] = 1;
+    let w: u16 = kani::any();
+    buf[14] = (w >> 8) as u8;
+    buf[15] = w as u8;
+    buf[20] = 2; buf[21] = 4; buf[22] = 0x05; buf[23] = 0xb4; // mss 1460
+    buf[24] = 8; buf[25] = 4; buf[26] = 0; buf[27] = 0;       // timestamp option cut short
+    let m = run(&buf).unwrap().tcp_request.unwrap().matching;
+    assert!(m.olayout.len() == 2 && m.olayout[0] == TcpOption::Mss && m.olayout[1] == TcpOption::TS);
+    assert!(m.mss == Some(1460));
+    assert!(m.wsize == crate::window_size::detect_win_multiplicator(w, 1460, 5, true, &IpVersion::V4));
+}
